@@ -47,7 +47,8 @@ TIERS = {
 
 FAULT_KINDS = ["illtyped_construct", "illtyped_subst", "unsupported", "undefined_symbol", "bad_smtlib", "bad_hr",
                "unsupported_command", "redefine_symbol", "stream_eio", "solver_convert", "solver_unknown",
-               "script_strict", "parse_declares", "bad_interpretation", "arith_error_subst", "sl_error", "bad_size_measure"]
+               "script_strict", "parse_declares", "bad_interpretation", "arith_error_subst", "sl_error", "bad_size_measure",
+               "nonincr_is_sat", "readd_solver", "model_incomplete"]
 SERVICES = ["simplify", "substitute", "free_vars", "atoms", "theory", "types", "size", "serialize", "to_smtlib",
             "nnf", "cnf", "aig", "prenex", "is_qf", "logic", "model_value"]
 
@@ -244,6 +245,11 @@ def gen_plan(tape, cfg):
                 o["newsym"] = "nz%d" % tape.draw(3, "sl_error.sym")
             elif kind == "bad_size_measure":
                 o["measure"] = tape.choice([6, 9, -1, 99], "badmeasure")
+            elif kind == "nonincr_is_sat":
+                o["f"] = bp.gen_term(tape, bp.BOOL, 2, sctx)
+                o["how"] = tape.choice(["nonbool", "convert"], "nonincr.how")
+            elif kind == "readd_solver":
+                o["name"] = "gen%d" % tape.draw(2, "readd.name")
             ops.append(o)
             if o["kind"] in ("illtyped_construct", "illtyped_subst", "unsupported", "redefine_symbol",
                              "undefined_symbol", "bad_hr", "bad_size_measure") and tape.chance(2, 3, "retry?"):
@@ -265,7 +271,10 @@ def gen_plan(tape, cfg):
             ops.append({"op": "hr", "name": nm, "text": tape.choice(["p & %s", "(%s | q) -> p", "!%s"], "hr.text") % nm})
             continue
         if k == "call":
-            spec = calls.gen_call(tape, len(pool), lambda i: pool[i], symbols, richgen, ctx)
+            # (declaring fresh-looking names by hand is left to C14: a failed parse legitimately
+            # leaves the fresh parameter names it drew, which only such a declaration could observe)
+            spec = calls.gen_call(tape, len(pool), lambda i: pool[i], symbols, richgen, ctx,
+                                  exclude=("declare_freshlike",))
             spec["op"] = "call"
             ops.append(spec)
         elif k == "parse":
@@ -685,6 +694,20 @@ def execute(plan, tape):
                         state["obj_failed"].add("sl")
                     if fk == "script_strict":
                         state["obj_failed"].add("script")
+                    if fk == "nonincr_is_sat":
+                        # the refused query must not have used the object up
+                        pa, pb = [on(s_, lambda s_=s_: ["verdict", s_.ni.is_sat(bp.build(o["f"], s_.env))]) for s_ in (A, B)]
+                        same("nonincremental.is_sat", pa, pb, None, "the valid query after the refused one")
+                    if fk == "readd_solver":
+                        def info(s_):
+                            fa = s_.env.factory
+                            args, logics = fa.get_generic_solver_info(o["name"])
+                            return ["generic", list(args), [str(l) for l in logics], fa.is_generic_solver(o["name"])]
+                        pa, pb = on(A, lambda: info(A)), on(B, lambda: info(B))
+                        same("factory.get_generic_solver_info", pa, pb, None, o["name"])
+                    if fk == "model_incomplete":
+                        pa, pb = [on(s_, lambda s_=s_: s_.pmodel.get_value(bp.build(term, s_.env))) for s_ in (A, B)]
+                        same("model.get_value", pa, pb, term, "completed value after an incomplete-model refusal")
                     if fk == "parse_declares":
                         # known borderline: the symbol declared by the failed script survives
                         name = o.get("probe", "zz_new")
@@ -797,6 +820,19 @@ def _prepare_fault(o, term, symbols, side):
         mgr.Int(1)
     if o["kind"] == "sl_error":
         bp.build(["and", o["f"], ["sym", o["newsym"], bp.BOOL]], env)
+    if o["kind"] == "nonincr_is_sat":
+        # a brand-new solver object without incrementality (valid step, both twins)
+        from dsim.brute import BruteSolver
+        from pysmt.logics import QF_BV
+        side.ni = BruteSolver(env, QF_BV, table=side.solver.table, tape=side.solver.tape, policy="first",
+                              incremental=False)
+    if o["kind"] == "readd_solver":
+        from pysmt.logics import QF_LIA
+        if o["name"] not in env.factory.all_solvers():
+            env.factory.add_generic_solver(o["name"], ["/bin/false"], [QF_LIA])
+    if o["kind"] == "model_incomplete":
+        if getattr(side, "pmodel", None) is None:
+            side.pmodel = calls.partial_model(env, symbols)
 
 
 def _fault_fn(o, term, symbols, user, side, tape):
@@ -901,6 +937,22 @@ def _fault_fn(o, term, symbols, user, side, tape):
         return fn, None
     if fk == "bad_size_measure":
         return (lambda: bp.build(term, env).size(o["measure"])), None
+    if fk == "nonincr_is_sat":
+        def fn():
+            f = bp.build(o["f"], env)
+            if o["how"] == "nonbool":
+                bad = mgr.Symbol("ni_b", bp.to_pysmt_type(bp.BV(2), env))
+            else:
+                bad = mgr.And(f, mgr.GT(mgr.Symbol("u", bp.to_pysmt_type(bp.REAL, env)), mgr.Real(0)))
+            return side.ni.is_sat(bad)
+        return fn, None
+    if fk == "readd_solver":
+        def fn():
+            from pysmt.logics import QF_BV as QF_BV_
+            return env.factory.add_generic_solver(o["name"], ["/bin/true", "--other"], [QF_BV_])
+        return fn, None
+    if fk == "model_incomplete":
+        return (lambda: side.pmodel.get_value(bp.build(term, env), model_completion=False)), None
     if fk == "bad_interpretation":
         def fn():
             from pysmt.substituter import FunctionInterpretation
